@@ -790,6 +790,22 @@ func (s *DB) getHistoricRootsAndNodes(
 	return roots, nodes, nil
 }
 
+// UnmergedVersions lists the current versions in the bucket that are not part
+// of this handle's view (committed by other writers since it was opened).
+func (s *DB) UnmergedVersions(ctx context.Context) ([]string, error) {
+	names, err := s.listRoots(ctx)
+	if err != nil {
+		return nil, err
+	}
+	var others []string
+	for _, name := range names {
+		if _, ok := s.mergedRoots[name]; !ok {
+			others = append(others, name)
+		}
+	}
+	return others, nil
+}
+
 // IsDirty returns true if there are entries in memory that haven't been Commit()ted.
 func (s DB) IsDirty() bool {
 	return s.tombstoned || s.crdt.IsDirty()
